@@ -1,5 +1,6 @@
 """C14 — SimpleLoop feeds exact time deltas and stops cleanly on Quit (spec/Loop.tla)."""
 from . import loop_common as lc
+from . import game_common as gm
 
 OWN = {'ret', 'log', 'loop'}
 
@@ -13,6 +14,10 @@ def run(res):
                   Reqs={'nop', 'switch', 'raise', 'quit', 'quit_loop', 'quitto', 'clrquit', 'error', 'qlerr', 'direct'}, Hs={'A', 'B'})
     lc.check_and_replay(res, 'c14_time', K, lc.INV, lc.PROPS_C14, own=OWN, walks=3000 if th else 1000, walk_len=10)
     lc.simulate_and_replay(res, 'c14_simulated', 1500 if th else 250, 30, own=OWN)
+    # composed end to end (spec/Game.tla): the dt every processor of the running world sees, across switches requested
+    # by the worlds' own processors (frames abandoned half way, handles cleared and reloaded)
+    gm.check_and_replay(res, 'c14_game', gm.consts(MaxFrames=4 if th else 3, Incs={0, 1, 3}),
+                        own={'dts', 'iterations', 'exc'}, walks=2000 if th else 300)
     K2 = dict(lc.consts(), StartResetsInFinally=False)
     res.model_check_py('Loop', 'c14_asimpl_start', K2, invariants=lc.INV, properties=lc.PROPS_C14,
                        expect_violation=('StartAlwaysFresh', 'FirstDtZero'), count=False)
